@@ -4,7 +4,7 @@ from .. import family, mapcase
 
 PROPS_FILES = ['theories/Props/C14.v']
 FINDINGS_FILES = ['theories/Findings/C14.v']
-LEVEL = 'proof'
+LEVEL = 'other'
 TRUSTED = ['Model/Functions.v: ASCII-exact definitions of 8 built-in functions (parameters regenerated from bif_dict) and of the 5 user-defined functions of harness/udfs.py',
            'Model/Engine.v exec_fnml (row-wise reading of execute_fnml: inner executions stored as columns, binding by parameter IRI, null removal, explode) and Model/Spec.v spec_eval (the property\'s reading)']
 ASSUMES = ['partial claim: Unicode case mappings, strptime, SHA-256, round and uuid are not modelled; such cases are judged by the partition-independence oracle only']
@@ -152,7 +152,27 @@ def run(ctx, res):
         res.evaluations += 1
         if not all(family.same(outs[0], o) for o in outs[1:]):
             res.violations.append({'key': None, 'sig': 'modes', 'what': 'function-valued maps: partitioning modes disagree %s' % [(o[0], len(o[1]) if o[0] == 'ok' else o[1]) for o in outs], 'replay': c})
+    # documented contracts of the built-ins on inputs the Gallina registry does not follow (Unicode case mappings ...):
+    # reference definitions written here, independent of the code
+    words = ['Straße', 'ǅ', 'İstanbul', 'ﬁn', 'ΟΔΥΣΣΕΥΣ', 'ὈΔΥΣΣΕΎΣ', 'µ', 'ß', 'ı', 'Ǆ', 'abc', 'ÀÉ', ' x\u2003', '\x1cq\x85', 'a,b', '', 'ΣΑΣ', 'i̇']
+    ref = {GREL + 'toLowerCase': (lambda string: string.lower()), GREL + 'toUpperCase': (lambda string: string.upper()), GREL + 'toTitleCase': (lambda string: string.title()),
+           GREL + 'reverse': (lambda string: string[::-1]), GREL + 'string_trim': (lambda string: string.strip())}
+    for fid, fn in ref.items():
+        r = ctx.pool.call('bif_call', fid=fid, kwargs_list=[{'string': w} for w in words])
+        if not r.get('ok'):
+            res.disagreements.append({'what': 'bif_call failed: %s' % str(r)[:200], 'replay': None}); continue
+        for w, o in zip(words, r['result']):
+            res.evaluations += 1
+            exp = fn(w)
+            if o.get('v') != exp:
+                res.violations.append({'key': None, 'sig': 'contract:' + fid.split('#')[-1], 'what': 'built-in %s(%r) returns %r, its contract says %r' % (fid.split('#')[-1], w, o.get('v', o), exp),
+                                       'replay': {'function': fid, 'input': w}})
     res.samples = [{'execs': cases[0]['execs'], 'doc': cases[0]['doc']}]
 
 
-replay = family.replay_family
+def replay(ctx, res, payload):
+    c = payload.get('case') or {}
+    if 'function' in c:
+        print('replay:', ctx.pool.call('bif_call', fid=c['function'], kwargs_list=[{'string': c['input']}]))
+        return
+    family.replay_family(ctx, res, payload)
